@@ -20,6 +20,63 @@ type shOp struct {
 	// ComputePut: the mapping function puts K2 => V2 into the same hash before it returns V
 	K2 string `json:"k2,omitempty"`
 	V2 int64  `json:"v2,omitempty"`
+	// NewCap: NewStringHash(C) ("New" is NewStringHash(2))
+	C int `json:"c,omitempty"`
+	// Iter: h.<IK>(callback) with IK one of EachKey, EachPair, EachValue, AllPair, AnyPair; at its i-th call the
+	// callback does Acts[i] to the SAME hash (nothing when the list has run out)
+	IK   string  `json:"ik,omitempty"`
+	Acts []shAct `json:"acts,omitempty"`
+}
+
+// shAct is what the callback of an iteration does at one call: A = "" (nothing), "del" (h.Delete(K)), "put"
+// (h.Put(K, V)), "compute" (h.ComputeIfAbsent(K, func() { return V })); Stop: the callback of AllPair returns false /
+// that of AnyPair returns true here (ignored by the Each methods, which cannot be stopped)
+type shAct struct {
+	A    string `json:"a,omitempty"`
+	K    string `json:"k,omitempty"`
+	V    int64  `json:"v,omitempty"`
+	Stop bool   `json:"stop,omitempty"`
+}
+
+func (a shAct) gallina() string {
+	var t string
+	switch a.A {
+	case "":
+		t = "ANone"
+	case "del":
+		t = "ADel " + lib.GStr(a.K)
+	case "put":
+		t = fmt.Sprintf("APut %s %s", lib.GStr(a.K), lib.GZ(a.V))
+	case "compute":
+		t = fmt.Sprintf("ACompute %s %s", lib.GStr(a.K), lib.GZ(a.V))
+	default:
+		panic("bad act " + a.A)
+	}
+	return lib.GPair(t, lib.GBool(a.Stop))
+}
+
+func (a shAct) String() string {
+	t := "-"
+	switch a.A {
+	case "del":
+		t = fmt.Sprintf("Delete(%q)", a.K)
+	case "put":
+		t = fmt.Sprintf("Put(%q,%d)", a.K, a.V)
+	case "compute":
+		t = fmt.Sprintf("ComputeIfAbsent(%q,%d)", a.K, a.V)
+	}
+	if a.Stop {
+		t += "+stop"
+	}
+	return t
+}
+
+func actsGallina(acts []shAct) string {
+	gs := make([]string, len(acts))
+	for i, a := range acts {
+		gs[i] = a.gallina()
+	}
+	return lib.GList(gs, "act * bool")
 }
 
 // producerPanic is what the mapping function of a ComputePanic step panics with
@@ -67,6 +124,10 @@ func (o shOp) gallina() string {
 		return fmt.Sprintf("OIsFrozen %d", o.H)
 	case "Equals":
 		return fmt.Sprintf("OEquals %d %d", o.H, o.O)
+	case "NewCap":
+		return fmt.Sprintf("ONewCap %d", o.C)
+	case "Iter":
+		return fmt.Sprintf("OIter %d I%s %s", o.H, o.IK, actsGallina(o.Acts))
 	}
 	panic("bad op " + o.Kind)
 }
@@ -83,6 +144,14 @@ func (o shOp) String() string {
 		return fmt.Sprintf("ComputePut(h%d,%q,%d,producer puts %q=>%d)", o.H, o.K, o.V, o.K2, o.V2)
 	case "Merge", "PutAll", "Equals":
 		return fmt.Sprintf("%s(h%d,h%d)", o.Kind, o.H, o.O)
+	case "NewCap":
+		return fmt.Sprintf("NewStringHash(%d)", o.C)
+	case "Iter":
+		as := make([]string, len(o.Acts))
+		for i, a := range o.Acts {
+			as[i] = a.String()
+		}
+		return fmt.Sprintf("%s(h%d, callback doing on h%d at its calls: %s)", o.IK, o.H, o.H, strings.Join(as, "; "))
 	}
 	return fmt.Sprintf("%s(h%d)", o.Kind, o.H)
 }
@@ -119,8 +188,55 @@ func applyImpl(objs *[]hash.StringHash, o shOp) (res shOut) {
 		*objs = append(*objs, hash.NewStringHash(2))
 		return shOut(fmt.Sprintf("RObj %d", len(*objs)-1))
 	}
+	if o.Kind == "NewCap" {
+		*objs = append(*objs, hash.NewStringHash(o.C))
+		return shOut(fmt.Sprintf("RObj %d", len(*objs)-1))
+	}
 	h := (*objs)[o.H]
 	switch o.Kind {
+	case "Iter":
+		// the callback re-enters the hash it is called from
+		var ks []string
+		var vs []int64
+		lastIterVals = nil
+		n := 0
+		do := func() bool {
+			var a shAct
+			if n < len(o.Acts) {
+				a = o.Acts[n]
+			}
+			n++
+			switch a.A {
+			case "del":
+				h.Delete(a.K)
+			case "put":
+				h.Put(a.K, a.V)
+			case "compute":
+				v := a.V
+				h.ComputeIfAbsent(a.K, func() interface{} { return v })
+			}
+			return a.Stop
+		}
+		seeV := func(v interface{}) {
+			vs = append(vs, v.(int64))
+			lastIterVals = vs
+		}
+		res := true
+		switch o.IK {
+		case "EachKey":
+			h.EachKey(func(k string) { ks = append(ks, k); do() })
+		case "EachPair":
+			h.EachPair(func(k string, v interface{}) { ks = append(ks, k); seeV(v); do() })
+		case "EachValue":
+			h.EachValue(func(v interface{}) { seeV(v); do() })
+		case "AllPair":
+			res = h.AllPair(func(k string, v interface{}) bool { ks = append(ks, k); seeV(v); return !do() })
+		case "AnyPair":
+			res = h.AnyPair(func(k string, v interface{}) bool { ks = append(ks, k); seeV(v); return do() })
+		default:
+			panic("bad iteration " + o.IK)
+		}
+		return iterOut(ks, vs, res)
 	case "Put":
 		old, rep := h.Put(o.K, o.V)
 		p, v := ifaceVal(old)
@@ -224,6 +340,21 @@ func applyImpl(objs *[]hash.StringHash, o shOp) (res shOut) {
 	panic("bad op")
 }
 
+// lastIterVals: the values the implementation handed to the callback of the last Iter step (see applyRef)
+var lastIterVals []int64
+
+func iterOut(ks []string, vs []int64, res bool) shOut {
+	gk := make([]string, len(ks))
+	for i, k := range ks {
+		gk[i] = lib.GStr(k)
+	}
+	gv := make([]string, len(vs))
+	for i, v := range vs {
+		gv[i] = lib.GZ(v)
+	}
+	return shOut(fmt.Sprintf("RIter %s %s %s", lib.GList(gk, "str"), lib.GList(gv, "Z"), lib.GBool(res)))
+}
+
 // ---- Go reference: the abstract insertion ordered map (direct check D) ----
 
 type refEntry struct {
@@ -264,12 +395,75 @@ func (r *refHash) copy() *refHash {
 }
 
 func applyRef(objs *[]*refHash, o shOp) shOut {
-	if o.Kind == "New" {
+	if o.Kind == "New" || o.Kind == "NewCap" {
 		*objs = append(*objs, &refHash{})
 		return shOut(fmt.Sprintf("RObj %d", len(*objs)-1))
 	}
 	h := (*objs)[o.H]
 	switch o.Kind {
+	case "Iter":
+		// The callback is called once for every entry the map held when the iteration started, in that order,
+		// whatever it does to the map meanwhile; what it does takes effect at once.  A value it puts for an entry
+		// still to come may or may not be the one handed out later (the property does not say): the value the
+		// implementation showed is accepted when it is the entry's value at the start or one put meanwhile.
+		start := append([]refEntry{}, h.es...)
+		var ks []string
+		var vs []int64
+		putVals := map[string][]int64{}
+		stopped := false
+		for i, e := range start {
+			ks = append(ks, e.k)
+			v := e.v
+			if i < len(lastIterVals) {
+				for _, pv := range putVals[e.k] {
+					if pv == lastIterVals[i] {
+						v = pv
+					}
+				}
+			}
+			vs = append(vs, v)
+			var a shAct
+			if i < len(o.Acts) {
+				a = o.Acts[i]
+			}
+			switch a.A {
+			case "del":
+				if h.frozen {
+					return "RFrozen"
+				}
+				if j := h.find(a.K); j >= 0 {
+					ne := append([]refEntry{}, h.es[:j]...)
+					h.es = append(ne, h.es[j+1:]...)
+				}
+			case "put":
+				if h.put(a.K, a.V) == "RFrozen" {
+					return "RFrozen"
+				}
+				putVals[a.K] = append(putVals[a.K], a.V)
+			case "compute":
+				if h.find(a.K) < 0 {
+					if h.frozen {
+						return "RFrozen"
+					}
+					h.es = append(h.es, refEntry{a.K, a.V})
+				}
+			}
+			if a.Stop && (o.IK == "AllPair" || o.IK == "AnyPair") {
+				stopped = true
+				break
+			}
+		}
+		switch o.IK {
+		case "EachKey":
+			return iterOut(ks, nil, true)
+		case "EachValue":
+			return iterOut(nil, vs, true)
+		case "AllPair":
+			return iterOut(ks, vs, !stopped)
+		case "AnyPair":
+			return iterOut(ks, vs, stopped)
+		}
+		return iterOut(ks, vs, true)
 	case "Put":
 		return h.put(o.K, o.V)
 	case "Delete":
@@ -456,7 +650,11 @@ func shAlphabet() []shOp {
 	al = append(al, shOp{Kind: "Compute", H: 0, K: "a"}, shOp{Kind: "Compute", H: 0, K: "d"},
 		shOp{Kind: "Freeze", H: 0}, shOp{Kind: "Copy", H: 0},
 		// a mapping function that panics (the caller recovers), and one that registers another key first
-		shOp{Kind: "ComputePanic", H: 0, K: "c"}, shOp{Kind: "ComputePut", H: 0, K: "b", K2: "d", V2: 7})
+		shOp{Kind: "ComputePanic", H: 0, K: "c"}, shOp{Kind: "ComputePut", H: 0, K: "b", K2: "d", V2: 7},
+		// iterations whose callback re-enters the hash: "remove what was visited", and one that deletes the entry
+		// after the visited one, replaces a later value, appends
+		shOp{Kind: "Iter", H: 0, IK: "EachKey", Acts: []shAct{{A: "del", K: "a"}, {A: "del", K: "b"}, {A: "del", K: "c"}, {A: "del", K: "d"}}},
+		shOp{Kind: "Iter", H: 0, IK: "AllPair", Acts: []shAct{{A: "del", K: "b"}, {A: "put", K: "d", V: 8}, {A: "compute", K: "a", V: 9}, {A: "del", K: "c", Stop: true}}})
 	return al
 }
 
@@ -479,6 +677,93 @@ func expandSh(seq []shOp) []shOp {
 	return ops
 }
 
+var shIterKinds = []string{"EachKey", "EachPair", "EachValue", "AllPair", "AnyPair"}
+
+func randomActs(r *lib.Rng, keys []string) []shAct {
+	n := r.Intn(7)
+	acts := make([]shAct, n)
+	for i := range acts {
+		k := keys[r.Intn(len(keys))]
+		switch x := r.Intn(10); {
+		case x < 5:
+			acts[i] = shAct{A: "del", K: k}
+		case x < 7:
+			acts[i] = shAct{A: "put", K: k, V: int64(5 + r.Intn(5))}
+		case x < 8:
+			acts[i] = shAct{A: "compute", K: k, V: int64(5 + r.Intn(5))}
+		}
+		acts[i].Stop = r.Chance(1, 8)
+	}
+	return acts
+}
+
+// shIterFamily: bounded-exhaustive iterations with a re-entrant callback.  A hash of n entries a=1, b=2, ... (n <= 4)
+// made by NewStringHash(c) for a capacity below, equal to and above n (whether an append moves the entries), then
+// one iteration of each of the five kinds whose callback does, at its i-th call, the i-th letter of every sequence
+// over {nothing, Delete(a..d), Put(a..e), ComputeIfAbsent(a), ComputeIfAbsent(e)} (n <= 3; n = 4: nothing / Delete
+// only), with AllPair / AnyPair stopped at every position in turn; then the full observation, a second (plain)
+// iteration, a Put of a new key and the keys again.
+func shIterFamily(yield func(ops []shOp)) {
+	keys := []string{"a", "b", "c", "d"}
+	full := []shAct{{}}
+	dels := []shAct{{}}
+	for _, k := range keys {
+		full = append(full, shAct{A: "del", K: k})
+		dels = append(dels, shAct{A: "del", K: k})
+	}
+	for _, k := range []string{"a", "b", "c", "d", "e"} {
+		full = append(full, shAct{A: "put", K: k, V: 20})
+	}
+	full = append(full, shAct{A: "compute", K: "a", V: 30}, shAct{A: "compute", K: "e", V: 30})
+	count := 0
+	for n := 1; n <= 4; n++ {
+		al := full
+		if n == 4 {
+			al = dels
+		}
+		caps := []int{0, n, 8}
+		if n != 2 {
+			caps = append(caps, 2)
+		}
+		var rec func(acts []shAct)
+		rec = func(acts []shAct) {
+			if len(acts) == n {
+				for _, c := range caps {
+					for _, kind := range shIterKinds {
+						count++
+						as := make([]shAct, n)
+						for i, a := range acts {
+							as[i] = a
+							if a.A != "" {
+								as[i].V = a.V + int64(i)
+							}
+						}
+						if kind == "AllPair" || kind == "AnyPair" {
+							if sp := count % (n + 1); sp < n {
+								as[sp].Stop = true
+							}
+						}
+						ops := []shOp{{Kind: "NewCap", C: c}}
+						for i := 0; i < n; i++ {
+							ops = append(ops, shOp{Kind: "Put", H: 0, K: keys[i], V: int64(i + 1)})
+						}
+						ops = append(ops, shOp{Kind: "Iter", H: 0, IK: kind, Acts: as})
+						ops = append(ops, shObservers(0, []string{"a", "b", "c", "d", "e"})...)
+						ops = append(ops, shOp{Kind: "Pairs", H: 0}, shOp{Kind: "Put", H: 0, K: "z", V: 99}, shOp{Kind: "Keys", H: 0},
+							shOp{Kind: "Get", H: 0, K: "z"})
+						yield(ops)
+					}
+				}
+				return
+			}
+			for _, a := range al {
+				rec(append(acts[:len(acts):len(acts)], a))
+			}
+		}
+		rec(nil)
+	}
+}
+
 func randomShHistory(r *lib.Rng, n int) []shOp {
 	ops := []shOp{{Kind: "New"}}
 	nobj := 1
@@ -490,6 +775,8 @@ func randomShHistory(r *lib.Rng, n int) []shOp {
 		v := int64(r.Intn(5))
 		var op shOp
 		switch x := r.Intn(100); {
+		case x < 4:
+			op = shOp{Kind: "Iter", H: h, IK: shIterKinds[r.Intn(len(shIterKinds))], Acts: randomActs(r, keys)}
 		case x < 30:
 			op = shOp{Kind: "Put", H: h, K: k, V: v}
 		case x < 50:
@@ -583,7 +870,44 @@ func shCorpus() [][]shOp {
 		}
 		return out
 	}
+	// a hash a=1, b=2, ... of n entries made by NewStringHash(c), one iteration, full observation
+	iter := func(c, n int, vals []int64, kind string, acts ...shAct) []shOp {
+		ops := []shOp{{Kind: "NewCap", C: c}}
+		ks := []string{"a", "b", "c", "d", "e"}
+		for i := 0; i < n; i++ {
+			v := int64(i + 1)
+			if vals != nil {
+				v = vals[i]
+			}
+			ops = append(ops, shOp{Kind: "Put", H: 0, K: ks[i], V: v})
+		}
+		ops = append(ops, shOp{Kind: "Iter", H: 0, IK: kind, Acts: acts})
+		ops = append(ops, shObservers(0, ks)...)
+		return append(ops, shOp{Kind: "Pairs", H: 0})
+	}
+	del := func(k string) shAct { return shAct{A: "del", K: k} }
+	frozenIter := func(kind string, acts ...shAct) []shOp {
+		return []shOp{{Kind: "New"}, {Kind: "Put", K: "a", V: 1}, {Kind: "Put", K: "b", V: 2}, {Kind: "Freeze"},
+			{Kind: "Iter", IK: kind, Acts: acts}, {Kind: "Pairs"}}
+	}
 	return [][]shOp{
+		// re-entrant callbacks: remove every visited key; remove the even values; remove the entry that follows
+		iter(4, 4, nil, "EachKey", del("a"), del("b"), del("c"), del("d")),
+		iter(8, 5, []int64{2, 4, 1, 6, 3}, "EachPair", del("a"), del("b"), shAct{}, del("d"), shAct{}),
+		iter(8, 5, []int64{2, 4, 1, 6, 3}, "AllPair", del("a"), del("b"), shAct{}, del("d"), shAct{}),
+		iter(8, 5, []int64{2, 4, 1, 6, 3}, "AnyPair", del("a"), del("b"), shAct{}, del("d"), shAct{}),
+		iter(8, 5, []int64{2, 4, 1, 6, 3}, "EachValue", del("a"), del("b"), shAct{}, del("d"), shAct{}),
+		iter(2, 3, nil, "EachPair", del("b"), del("c")),
+		// the callback puts a value for an entry still to come: handed out while the entries live where they did
+		// when the iteration started (same history, capacity 4 / 3: an append moves them or not; after a Delete)
+		iter(4, 3, nil, "EachPair", shAct{A: "compute", K: "d", V: 5}, shAct{A: "put", K: "c", V: 9}),
+		iter(3, 3, nil, "EachPair", shAct{A: "compute", K: "d", V: 5}, shAct{A: "put", K: "c", V: 9}),
+		iter(4, 3, nil, "EachValue", del("a"), shAct{A: "put", K: "c", V: 9}),
+		iter(4, 3, nil, "AllPair", shAct{A: "put", K: "c", V: 9}, shAct{A: "put", K: "a", V: 8}, shAct{A: "put", K: "e", V: 7, Stop: true}),
+		// a frozen hash: queries from the callback are fine, the first mutation panics out of the iteration
+		frozenIter("EachPair", shAct{A: "compute", K: "a", V: 5}, del("b")),
+		frozenIter("AnyPair", shAct{}, shAct{A: "put", K: "a", V: 5}),
+		frozenIter("EachKey", shAct{A: "compute", K: "z", V: 5}),
 		obs([]shOp{{Kind: "Put", K: "a", V: 1}, {Kind: "ComputePanic", K: "b"}, {Kind: "Put", K: "c", V: 9}, {Kind: "Compute", K: "b", V: 4}}),
 		obs([]shOp{{Kind: "ComputePanic", K: "a"}, {Kind: "ComputePanic", K: "a"}, {Kind: "Put", K: "a", V: 2}, {Kind: "ComputePanic", K: "a"}}),
 		obs([]shOp{{Kind: "Put", K: "a", V: 1}, {Kind: "ComputePut", K: "b", V: 11, K2: "c", V2: 10}, {Kind: "Delete", K: "b"}, {Kind: "Delete", K: "c"}}),
